@@ -56,9 +56,11 @@ def model():
     return _M
 
 
-ENV = dict(x18=18, lst=[18, 20], sfx='e')
+ENV = dict(x18=18, lst=[18, 20], sfx='e', nn=None)
 CONDS = [
     's.age', 'not s.age', 's.gpa', 'not s.gpa', 's.nick', 'not s.nick', 's.note', 'not s.note', 's.flag', 'not s.flag', 's.group', 'not s.group',
+    's.age == None', 's.age != None', 'None == s.age', 'None != s.age', 'None is s.age', 'None is not s.group', 'nn == s.age', 'nn != s.nick', 's.age == nn', 's.group != nn', 'nn is s.flag',
+    'None == s.group', 'not (None == s.age)', 'None != s.gpa and s.a > 1', 's.nick == None or s.a == 0',
     's.age is None', 's.age is not None', 's.group is None', 's.flag is None', 's.flag == True', 's.flag == False', 's.flag != True',
     's.age == 20', 's.age != 20', 's.age > 18', 's.age >= x18', '18 <= s.age < 21', 's.age + 1 > 20', 's.age * 2 == 40', 's.age - s.b < 17', '-s.age < -19',
     's.age // 3 == 6', 's.age // 3 == -1', 's.age % 3 == 2', 's.b % 3 == 2', 's.b // 2 == 1', 's.age ** 2 > 400', 's.gpa / 2 > 1.5', 'abs(s.age - 20) < 2', 's.a + s.b == 6', 's.a * s.b == 0',
@@ -123,12 +125,15 @@ def ref_eval(node, env):
         try: return 'val', f(a, b)
         except (ZeroDivisionError, OverflowError): raise Skip()
     if isinstance(node, ast.Compare):
-        left = ev(node.left); res = T
+        left = ev(node.left); res = T; prev_node = node.left
         for op, rn in zip(node.ops, node.comparators):
             right = ev(rn)
             a, b = _val(left), _val(right)
-            if isinstance(op, (ast.Is, ast.IsNot)):
-                r = T if ((a is b) == isinstance(op, ast.Is)) else F
+            # a comparison with the None CONSTANT (written out, or an outer value that is None) is a None test: two-valued, whichever side it stands on
+            none_test = isinstance(op, (ast.Eq, ast.NotEq)) and any(isinstance(n, ast.Constant) and n.value is None or isinstance(n, ast.Name) and n.id != 's' and env.get(n.id, 0) is None
+                                                                    for n in (prev_node, rn))
+            if isinstance(op, (ast.Is, ast.IsNot)) or none_test:
+                r = T if ((a is b) == isinstance(op, (ast.Is, ast.Eq))) else F
             elif isinstance(op, (ast.In, ast.NotIn)):
                 if isinstance(b, str) or isinstance(a, str) and isinstance(b, str): r = U if a is None or b is None else (T if a in b else F)
                 elif a is None: r = U
@@ -145,7 +150,7 @@ def ref_eval(node, env):
                     try: r = T if _cmp(op, a, b) else F
                     except TypeError: raise Skip()
             res = F if F in (res, r) else U if U in (res, r) else T
-            left = right
+            left = right; prev_node = rn
         return 'tv', res
     if isinstance(node, ast.Call):
         args = [_val(ev(a)) for a in node.args]
